@@ -433,6 +433,9 @@ class Conic(Quadric):
         if isinstance(other, Conic):
             if other.is_degenerate:
                 g, h = other.components
+            elif self.is_degenerate:
+                # the cubic below has leading coefficient det(self) = 0: intersect the components of this conic with the other one
+                return other.intersect(self)
             else:
                 a1, a2, a3 = self.array
                 b1, b2, b3 = other.array
